@@ -182,10 +182,10 @@ PROPS["C14"] = {
 }
 PROPS["C20"] = {
     "groups": [{"run": "^vpH_C20_T_"}],
-    "bounds": {"quick": "three scenario families with happens-before tracking switched on: (1) Status/IsLeader/Token/LeaderID/ValidateToken/ValidateTokenOrDemote and OnPromote/OnDemote registration against heartbeat, validation, watcher and a demotion; (2) Stop / StopWithContext and restart, placed by the explorer, against disconnect/reconnect/disconnect notifications and the grace timer; (3) Stop / StopWithContext placed by the explorer against a follower's acquisition round, callback registration and Status; tracked memory: every plain (non-atomic) field of kvElection, disconnectHandler and natsConnectionMonitor"},
+    "bounds": {"quick": "three scenario families with happens-before tracking switched on: (1) Status/IsLeader/Token/LeaderID/ValidateToken/ValidateTokenOrDemote and OnPromote/OnDemote registration against heartbeat, validation, watcher and a demotion; (2) Stop / StopWithContext and restart, placed by the explorer, against disconnect/reconnect/disconnect notifications and the grace timer; (3) Stop / StopWithContext placed by the explorer against a follower's acquisition round, callback registration and Status; tracked memory: every plain (non-atomic) field of kvElection, disconnectHandler and natsConnectionMonitor, local variables of library functions captured by closures, backing arrays made by library code, *rand.Rand objects, and sync.WaitGroup values that are overwritten while in use"},
     "outside": "races inside dependencies; torn multi-word observations; accesses ordered only by sequentially consistent atomics are treated as ordered (Go memory model for sync/atomic)",
     "assumptions": ["happens-before edges: go statement, channel send/receive/close, mutex unlock->lock, WaitGroup Done->Wait, atomic store->load of the same cell, sync.Once, timer creation->callback, context cancel->Done/Err observed"],
-    "level_text": "Vector-clock happens-before tracking inside the executor: two conflicting plain accesses to a tracked field that are unordered on any explored path are a race event, identified by field and the pair of accessing functions, independent of where exactly the explorer scheduled them; each reported pair is confirmed with the Go race detector on the natively replayed scenario (go test -race).",
+    "level_text": "Vector-clock happens-before tracking inside the executor: two conflicting plain accesses to a tracked field that are unordered on any explored path are a race event, identified by field and the pair of accessing functions, independent of where exactly the explorer scheduled them; the deciding evidence is this happens-before analysis on a replayable path; a native replay of the scenario under the Go race detector (go test -race) is attempted once per reported pair and its outcome recorded, but the harness stubs and the replay baton add synchronisation of their own, so a silent detector is not taken as a refutation.",
     "level_note": "Race events only for the tracked structs; bounded scenario families; the executor's model of the synchronisation primitives is trusted.",
 }
 PROPS["S00"] = {"groups": [{"run": "^vpH_S00_"}], "level_text": "engine smoke test", "level_note": ""}
